@@ -22,9 +22,9 @@ Universe == IdSets \X FeatSets \X FormsU
 FormOf(u) ==
     IF ~u.on THEN NoForm
     ELSE [on |-> TRUE,
-          fields |-> <<[var |-> FT, vals |-> <<u.ty>>]>> \o
+          fields |-> <<[var |-> FT, multi |-> FALSE, vals |-> <<u.ty>>]>> \o
                      [j \in 1..Cardinality(DOMAIN u.fs) |->
-                        LET v == SetToSeq(DOMAIN u.fs)[j] IN [var |-> v, vals |-> SetToSeq(u.fs[v])]]]
+                        LET v == SetToSeq(DOMAIN u.fs)[j] IN [var |-> v, multi |-> TRUE, vals |-> SetToSeq(u.fs[v])]]]
 CanonU(u) == Canon(SetToSeq(u[1]), SetToSeq(u[2]), FormOf(u[3]))
 
 IInit == n = Cardinality(Universe) /\ ids = <<>> /\ feats = <<>> /\ form = NoForm /\ canon = <<>> /\ hist = <<>>
